@@ -405,15 +405,19 @@ EmbedBase(kind, f) ==
           OO(<< <<"schema", OO(<< <<"type", S("object")>>, <<"properties", OO(<< <<"a", TString>>, <<"b", TString>> >>)>> >>)>> >>)
      [] OTHER -> Min(kind)
 
-(* a step of a location path *)
+(* a step of a location path.  pos 1 / 2: first / second member of an array or map; pos 3: first member below a *)
+(* parent schema that carries NO "type" (a schema with items / properties / additionalProperties need not say     *)
+(* "array" / "object": the keyword and everything below it is there all the same)                                *)
+Ord(pos) == IF pos = 3 THEN 1 ELSE pos
 Step(from, e, pos) ==
    [from |-> from, f |-> e.f, mode |-> e.mode, kind |-> e.kind, ref |-> e.ref, pos |-> pos,
     key |-> CASE e.mode = "one" -> ""
-              [] e.mode = "arr" -> ToString(pos - 1)
-              [] OTHER -> MapKeys(from, e.f)[pos]]
+              [] e.mode = "arr" -> ToString(Ord(pos) - 1)
+              [] OTHER -> MapKeys(from, e.f)[Ord(pos)]]
 
-Embed(st, child) ==
-   LET base == EmbedBase(st.from, st.f)
+Embed(stp, child) ==
+   LET st   == [stp EXCEPT !.pos = Ord(@)]
+       base == IF stp.pos = 3 THEN EmptyO ELSE EmbedBase(st.from, st.f)
        sib  == Sibling(st.kind)
        keys == MapKeys(st.from, st.f) IN
    CASE st.mode = "one" -> Set(base, st.f, child)
